@@ -215,3 +215,29 @@ Definition seg_old (s : seg) : bytes := let '(g, m, _, c) := s in g ++ m ++ c.
 Definition seg_new (s : seg) : bytes := let '(g, _, r, c) := s in g ++ r ++ c.
 Definition flat_old (l : list seg) : bytes := flat_map seg_old l.
 Definition flat_new (l : list seg) : bytes := flat_map seg_new l.
+
+(* the successive matches of one scan: Chain notbol suffix segments tail *)
+Section Chain.
+  Variable find : bytes -> bool -> option (list grp).
+  Variable rep : bytes.
+  Variable gflag : bool.
+
+  (* s is the segment cut off the suffix ln by the match offs; rest is what is searched next *)
+  Definition match_seg (ln : bytes) (offs : list grp) (s : seg) (rest : bytes) : Prop :=
+    exists so eo t c,
+      nth 0 offs unset = (so, eo) /\ (0 <= so <= eo)%Z /\ (eo <= Z.of_nat (length ln))%Z /\
+      expand rep ln offs = Some t /\
+      s = (firstn (Z.to_nat so) ln, firstn (Z.to_nat (eo - so)) (skipn (Z.to_nat so) ln), t, c) /\
+      skipn (Z.to_nat eo) ln = c ++ rest /\
+      (* one character is stepped over exactly when the match ends at the start of the suffix *)
+      (if (eo <=? 0)%Z then step_char (skipn (Z.to_nat eo) ln) = Some (c, rest) else c = []).
+
+  Inductive Chain : bool -> bytes -> list seg -> bytes -> Prop :=
+  | ChEnd : forall nb ln, find ln nb = None -> Chain nb ln [] ln
+  | ChLast : forall nb ln offs s rest,
+      find ln nb = Some offs -> match_seg ln offs s rest -> stops gflag rest = true -> Chain nb ln [s] rest
+  | ChStep : forall nb ln offs s rest segs tail,
+      find ln nb = Some offs -> match_seg ln offs s rest -> stops gflag rest = false ->
+      Chain true rest segs tail ->                      (* every later search is made with RE_NOTBOL *)
+      Chain nb ln (s :: segs) tail.
+End Chain.
